@@ -355,11 +355,13 @@ qb_rb_space_free(struct qb_ringbuffer_s * rb)
 	} else if (write_size < read_size) {
 		space_free = (read_size - write_size) - 1;
 	} else {
-		if (rb->notifier.q_len_fn && rb->notifier.q_len_fn(rb->notifier.instance) > 0) {
-			space_free = 0;
-		} else {
-			space_free = rb->shared_hdr->word_size;
-		}
+		/*
+		 * qb_rb_chunk_alloc() always leaves a gap, so the write pointer
+		 * never catches up with the read pointer: equal pointers mean
+		 * "empty", whatever the notifier count says (in overwrite mode
+		 * it also counts the chunks the writer has reclaimed itself).
+		 */
+		space_free = rb->shared_hdr->word_size;
 	}
 
 	/* word -> bytes */
